@@ -387,7 +387,22 @@ macro_rules! float_checks {
             pub fn bisect(d: &mut Draw) -> Outcome {
                 let deg = d.bool();
                 let turn: f64 = if deg { 360.0 } else { 2.0 * PI64 };
-                let kind = d.int(0, 3);
+                let kind = d.int(0, 5);
+                if kind >= 4 {
+                    // a = b, anywhere in the finite range (the top binade, where a + b is no longer finite, one time in three):
+                    // the difference is exactly zero, so the bisector is the direction of a itself
+                    let a: F = if d.chance(1, 3) { (if d.bool() { 1.0 } else { -1.0 }) * (F::MAX / 2.0) * (1.0 + d.unit() as F * 0.999) } else { from_bits_finite(d) };
+                    d.note("unit", &if deg { "Deg" } else { "Rad" });
+                    d.note("a = b", &a);
+                    let t = turn as F;
+                    let want = { let r = a % t; if r < 0.0 { r + t } else { r } };
+                    let (m, n) = if deg { (Deg(a).bisect(Deg(a)).0, Deg(a).normalize().0) } else { (Rad(a).bisect(Rad(a)).0, Rad(a).normalize().0) };
+                    d.note("bisect", &m);
+                    let circ = |x: F| { let x = x.abs(); x.min((t - x).abs()) };
+                    ensure!(m.is_finite() && circ(m - want) <= 8.0 * F::EPSILON * t, "bisect-of-equal-angles",
+                        "bisect({:e}, {:e}) = {:e}; the direction of the angle itself is {:e} (normalize gives {:e})", a, a, m, want, n);
+                    return pass(if a.abs() > F::MAX / 2.0 { "equal-pair-top-binade" } else { "equal-pair" }, true);
+                }
                 let a = (d.f64_in(-3.0, 3.0) * turn) as F;
                 let b = match kind {
                     0 => (a as f64 + turn / 2.0 + (d.int(-2, 2) as f64) * turn) as F,
@@ -442,8 +457,8 @@ pub fn property() -> Property {
     add!("inverse-f32", "f32", f32c::inverse, 8000, 500_000, 24, &[("rad", 200), ("deg", 200)], "every generated ratio / quadrant");
     add!("arithmetic-f64", "f64", f64c::arithmetic, 6000, 400_000, 8, &[], "a and b non-zero (raw bit patterns)");
     add!("arithmetic-f32", "f32", f32c::arithmetic, 6000, 400_000, 8, &[], "a and b non-zero (raw bit patterns)");
-    add!("bisect-f64", "f64", f64c::bisect, 8000, 500_000, 16, &[("opposite-pair", 100), ("near-pair", 100), ("generic-pair", 200)], "every generated pair");
-    add!("bisect-f32", "f32", f32c::bisect, 8000, 500_000, 16, &[("opposite-pair", 100), ("near-pair", 100), ("generic-pair", 200)], "every generated pair");
+    add!("bisect-f64", "f64", f64c::bisect, 8000, 500_000, 16, &[("opposite-pair", 100), ("near-pair", 100), ("generic-pair", 150), ("equal-pair", 100), ("equal-pair-top-binade", 50)], "every generated pair");
+    add!("bisect-f32", "f32", f32c::bisect, 8000, 500_000, 16, &[("opposite-pair", 100), ("near-pair", 100), ("generic-pair", 150), ("equal-pair", 100), ("equal-pair-top-binade", 50)], "every generated pair");
     Property {
         id: "C13",
         title: "Rad and Deg convert, normalise and evaluate trigonometry consistently",
